@@ -274,7 +274,7 @@ class InitializeInternal(Contract):
     def spec(self, S):
         D = S.cfg['DIM']
         bp = S.v('breakpoints')
-        S.requires((bp.size() >= 0) & (bp.size() <= 1 << 24) & (S.v('coefficients').R >= 0) & (S.num_coefficients >= -(1 << 20)) & (S.num_coefficients <= 1 << 20), 'sizes_sane')
+        S.requires((bp.size() >= 0) & (bp.size() <= (1 << 24) + 1) & (S.v("coefficients").R >= 0) & (S.num_coefficients >= -(1 << 20)) & (S.num_coefficients <= 1 << 20), 'sizes_sane')
         S.assigns(*[S.v(x) for x in PP_STATE])
         acc = accept_cond(S)
         # C16: rejected <=> uninitialised object with no segments
@@ -324,10 +324,10 @@ def eval_requires(S):
 CACHE_STATE = ('derivative_coeffs_', 'derivative_coeffs_ready_') + TABLE_STATE
 
 
-def value_is_piece_derivative(S, res, t, kk, label):
+def value_is_piece_derivative(S, res, t, kk, label, lemma=True):
     """for every piece r that the half-open lookup designates for t:  res == d^k/dt^k piece_r (t - b_r)"""
     nc = nc_of(S)
-    if S.mode == 'verify' and kk < nc:
+    if S.mode == 'verify' and kk < nc and lemma:
         # calc step: the piece is unique (sortedness), so the skolem piece is the one the code used; proved as its own
         # obligation and then available as an equation, which keeps the polynomial goal a congruence
         S.ghost('exit', lambda G: G.lemma(implies((S.sk(0) >= 0) & (S.sk(0) < S.num_segments_) & seg_post(S, S.sk(0), t),
@@ -341,7 +341,7 @@ def value_is_piece_derivative(S, res, t, kk, label):
             S.ensures(res(d).eq(0), '%s_zero_beyond_degree_%d' % (label, d))
         return
     for d in range(D):
-        S.ensures(S.forall(0, n, lambda r: implies(seg_post(S, r, t), res(d).eq(der(C, nc, r, kk, t - bp.at(r), d)))), '%s_%d' % (label, d))
+        S.ensures(S.forall(0, n, lambda r, d=d: implies(seg_post(S, r, t), res(d).eq(der(C, nc, r, kk, t - bp.at(r), d)))), '%s_%d' % (label, d))
 
 
 def pinned_order(S, name='derivative_order'):
@@ -362,7 +362,7 @@ class Evaluate(Contract):
         S.requires(E.const(kk) >= 0, 'order_nonnegative')
         S.terms(0, S.num_segments_ - 1, S.num_segments_, S.sk(0) + 1)
         S.assigns(*[S.v(x) for x in CACHE_STATE])
-        value_is_piece_derivative(S, lambda d: S.result.at(d, 0), S.t, kk, 'value')
+        value_is_piece_derivative(S, lambda d: S.result.at(d, 0), S.t, kk, 'value', lemma=(self.key == 'PPolyND.evaluate' and self.sig != ('double', 'Deriv')))
         S.ensures(table_inv(S), 'table')
         for p in cache_inv(S, inst=[S.sk(0)]):
             S.ensures(p, 'cache')
@@ -408,7 +408,7 @@ def reinit_post(S):
 
 def sizes_sane(S):
     bp = S.v('breakpoints')
-    return (bp.size() >= 0) & (bp.size() <= 1 << 24) & (S.v('coefficients').R >= 0) & (S.num_coefficients >= -(1 << 20)) & (S.num_coefficients <= 1 << 20)
+    return (bp.size() >= 0) & (bp.size() <= (1 << 24) + 1) & (S.v("coefficients").R >= 0) & (S.num_coefficients >= -(1 << 20)) & (S.num_coefficients <= 1 << 20)
 
 
 @register
@@ -509,3 +509,339 @@ class GenerateTimeSequence(Contract):
             ('size', L.time_sequence.size().eq(L.i)),
             ('values', S.forall(0, L.i, lambda j: L.time_sequence.at(j).eq(s + f(j) * dt))),
         ], variant=lambda L: L.num_steps + 1 - L.i, terms=lambda L: [L.i, L.i - 1, L.num_steps, L.num_steps - 1, L.num_steps + 1])
+
+
+@register
+class EvaluateBatch(Contract):
+    """batch evaluation = pointwise evaluation: every row j is the k-th derivative of the piece designated for t[j]"""
+    key = 'PPolyND.evaluate'
+    sig = ('vector', 'int')
+
+    def spec(self, S):
+        kk = pinned_order(S)
+        nc = nc_of(S)
+        D = S.cfg['DIM']
+        C = S.v('coefficients_')
+        bp = S.v('breakpoints_')
+        n = S.num_segments_
+        tv = S.v('t')
+        eval_requires(S)
+        S.requires(E.const(kk) >= 0, 'order_nonnegative')
+        S.requires((tv.size() >= 0) & (tv.size() <= 1 << 24), 'size_sane')
+        S.terms(0, n - 1, n, S.sk(1) + 1)
+        S.assigns(*[S.v(x) for x in CACHE_STATE])
+        res = S.v('result')
+        S.ensures(res.R.eq(tv.size()), 'one_row_per_time')
+
+        def rows_ok(M, hi):
+            if kk >= nc:
+                return S.forall(0, hi, lambda j: [M.at(j, d).eq(0) for d in range(D)])
+            return S.forall(0, hi, lambda j: S.forall(0, n, lambda r: implies(seg_post(S, r, tv.at(j)),
+                            conj([M.at(j, d).eq(der(C, nc, r, kk, tv.at(j) - bp.at(r), d)) for d in range(D)]))))
+        S.ensures(rows_ok(res, tv.size()), 'rows_are_pointwise_values')
+        S.ensures(table_inv(S), 'table')
+        for p in cache_inv(S, inst=[S.sk(0)]):
+            S.ensures(p, 'cache')
+        S.loop(0, inv=lambda L: [
+            ('range', (L.i >= 0) & (L.i <= tv.size())),
+            ('rows', L.results.R.eq(L.i)),
+            ('values', rows_ok(L.results, L.i)),
+            ('table', table_inv(S)),
+        ] + [('cache', p) for p in cache_inv(S, inst=[S.sk(0)])], variant=lambda L: tv.size() - L.i)
+
+
+@register
+class SegmentEvaluate(Contract):
+    """Segment::evaluate(t, k) = k-th derivative of that piece at local time t (the route reached by operator[], at(), iteration)"""
+    key = 'Segment.evaluate'
+    sig = ('double', 'int')
+
+    def spec(self, S):
+        P = S.v('parent_').target
+        PS = _sub(S, P)
+        kk = pinned_order(S)
+        nc = nc_of(PS)
+        D = S.cfg['DIM']
+        idx = S.idx_
+        S.requires(mk_not(S.v('parent_').null()), 'parent_set')
+        S.requires(ppoly_shape(PS), 'shape')
+        S.requires(coeff_shape(PS), 'coeff_rows')
+        S.requires(table_inv(PS), 'table_inv')
+        for p in cache_inv(PS, inst=[S.sk(0), idx]):
+            S.requires(p, 'cache_inv')
+        S.requires((idx >= 0) & (idx < PS.num_segments_), 'index_in_range')
+        S.terms(idx)
+        S.assigns(*[PS.v(x) for x in CACHE_STATE])
+        C = PS.v('coefficients_')
+        for d in range(D):
+            if kk < 0 or kk >= nc:
+                S.ensures(S.result.at(d, 0).eq(0), 'zero_beyond_degree_%d' % d)
+            else:
+                S.ensures(S.result.at(d, 0).eq(der(C, nc, idx, kk, S.t, d)), 'value_%d' % d)
+
+
+class _SubSpec(object):
+    """view of a Spec whose namespace is the fields of another object (the parent of a Segment)"""
+
+    def __init__(self, S, obj):
+        self._S = S
+        self._obj = obj
+        self.cfg = obj.cfg
+        self.mode = S.mode
+
+    def v(self, name):
+        return self._obj.fields[name]
+
+    def __getattr__(self, name):
+        obj = self.__dict__.get('_obj')
+        if obj is not None and name in obj.fields:
+            return self._S.wrap(obj.fields[name])
+        return getattr(self._S, name)
+
+    def forall(self, *a, **k):
+        return self._S.forall(*a, **k)
+
+    def sk(self, l=0):
+        return self._S.sk(l)
+
+
+def _sub(S, obj):
+    return _SubSpec(S, obj)
+
+
+# ------------------------------------------------------------------------------------------------ access routes (C03 / C16)
+def _designates(seg_obj, parent_field, this):
+    slot = seg_obj.fields[parent_field]
+    return E.const(slot.target is this) & mk_not(slot.null())
+
+
+@register
+class OperatorIndex(Contract):
+    key = 'PPolyND.operator[]'
+
+    def spec(self, S):
+        S.assigns()
+        r = S.v('result')
+        S.ensures(r.fields['idx_'].rd().eq(S.idx), 'index')
+        S.ensures(_designates(r, 'parent_', S.v('this')), 'parent_is_this')
+
+
+@register
+class At(Contract):
+    key = 'PPolyND.at'
+
+    def spec(self, S):
+        thrown = E.var('thrown', BOOL)
+        S.requires(mk_not(thrown), 'no_pending_exception')
+        S.assigns()
+        bad = (S.idx < 0) | (S.idx >= S.num_segments_)
+        S.ensures(thrown.eq(bad), 'throws_iff_out_of_range')
+        r = S.v('result')
+        S.ensures(implies(mk_not(bad), r.fields['idx_'].rd().eq(S.idx) & _designates(r, 'parent_', S.v('this'))), 'segment_of_index')
+
+
+@register
+class Begin(Contract):
+    key = 'PPolyND.begin'
+
+    def spec(self, S):
+        S.assigns()
+        r = S.v('result')
+        S.ensures(r.fields['idx_'].rd().eq(0) & _designates(r, 'ptr_', S.v('this')), 'first')
+
+
+@register
+class End(Contract):
+    key = 'PPolyND.end'
+
+    def spec(self, S):
+        S.assigns()
+        r = S.v('result')
+        S.ensures(r.fields['idx_'].rd().eq(S.num_segments_) & _designates(r, 'ptr_', S.v('this')), 'past_last')
+
+
+@register
+class IterDeref(Contract):
+    key = 'ConstIterator.operator*'
+
+    def spec(self, S):
+        S.assigns()
+        r = S.v('result')
+        S.ensures(r.fields['idx_'].rd().eq(S.idx_), 'same_index')
+        S.ensures(E.const(r.fields['parent_'].target is S.v('ptr_').target) & r.fields['parent_'].null().eq(S.v('ptr_').null()), 'same_parent')
+
+
+@register
+class IterIncr(Contract):
+    key = 'ConstIterator.operator++'
+    nparams = 0
+
+    def spec(self, S):
+        S.assigns(S.v('idx_'))
+        S.ensures(S.idx_.eq(S.old.idx_ + 1), 'next_piece')
+
+
+@register
+class SegTimes(Contract):
+    key = 'Segment.startTime'
+
+    def spec(self, S):
+        P = S.v('parent_').target
+        S.requires(mk_not(S.v('parent_').null()), 'parent_set')
+        S.assigns()
+        S.ensures(S.result.eq(P.fields['breakpoints_'].at(S.idx_)), 'start')
+
+
+@register
+class SegEnd(Contract):
+    key = 'Segment.endTime'
+
+    def spec(self, S):
+        P = S.v('parent_').target
+        S.requires(mk_not(S.v('parent_').null()), 'parent_set')
+        S.assigns()
+        S.ensures(S.result.eq(P.fields['breakpoints_'].at(S.idx_ + 1)), 'end')
+
+
+@register
+class SegDuration(Contract):
+    key = 'Segment.duration'
+
+    def spec(self, S):
+        P = S.v('parent_').target
+        bp = P.fields['breakpoints_']
+        S.requires(mk_not(S.v('parent_').null()), 'parent_set')
+        S.assigns()
+        S.ensures(S.result.eq(bp.at(S.idx_ + 1) - bp.at(S.idx_)), 'duration')
+
+
+@register
+class EvaluateDeriv(Contract):
+    """the Deriv-enum overload forwards to the integer derivative order of the same value"""
+    key = 'PPolyND.evaluate'
+    sig = ('double', 'Deriv')
+
+    def spec(self, S):
+        kk = pinned_order(S, 'type')
+        eval_requires(S)
+        S.terms(0, S.num_segments_ - 1, S.num_segments_, S.sk(0) + 1)
+        S.assigns(*[S.v(x) for x in CACHE_STATE])
+        value_is_piece_derivative(S, lambda d: S.result.at(d, 0), S.t, kk, 'value', lemma=(self.key == 'PPolyND.evaluate' and self.sig != ('double', 'Deriv')))
+
+
+@register
+class Derivative(Contract):
+    """derivative(k): the returned trajectory has the differentiated coefficients, hence evaluates (order 0) to the k-th
+    derivative of the original (same spec function der)"""
+    key = 'PPolyND.derivative'
+
+    def spec(self, S):
+        nc = nc_of(S)
+        kk = pinned_order(S)
+        D = S.cfg['DIM']
+        n = S.num_segments_
+        C = S.v('coefficients_')
+        bp = S.v('breakpoints_')
+        R = S.v('result')
+        RC, Rbp = R.fields['coefficients_'], R.fields['breakpoints_']
+        S.requires(ppoly_shape(S), 'shape')
+        S.requires(coeff_shape(S), 'coeff_rows')
+        S.requires(table_inv(S), 'table_inv')
+        S.requires(E.const(kk) >= 0, 'order_nonnegative')
+        S.assigns(*[S.v(x) for x in TABLE_STATE])
+        S.ensures(table_inv(S), 'table')
+        S.ensures(implies(n.eq(0), mk_not(R.fields['is_initialized_'].rd()) & R.fields['num_segments_'].rd().eq(0)), 'empty_gives_empty')
+        no_flags = mk_not(R.fields['derivative_coeffs_ready_'].rd()) & mk_not(R.fields['derivative_factor_table_ready_'].rd())
+        S.ensures(no_flags, 'fresh_caches')
+        ok = n > 0
+        new_nc = nc - kk if kk < nc else 1
+        S.ensures(implies(ok, R.fields['is_initialized_'].rd() & R.fields['num_segments_'].rd().eq(n) & R.fields['num_coeffs_'].rd().eq(new_nc)), 'initialised')
+        for j, p in enumerate(same_contents_vec(S, Rbp, bp)):
+            S.ensures(_under(ok, p), 'same_breakpoints_%d' % j)
+        S.ensures(implies(ok, RC.R.eq(n * new_nc)), 'rows')
+        T = S.fresh_real('T')
+        S.terms(*[S.sk(0) * new_nc + j for j in range(new_nc)])
+        if kk < nc:
+            S.ensures(S.forall(0, n, lambda s: [RC.at(s * new_nc + j, c).eq(Fraction(ff(j + kk, kk)) * C.at(s * nc + j + kk, c))
+                                              for j in range(new_nc) for c in range(D)]), 'differentiated_coefficients')
+            S.ensures(S.forall(0, n, lambda s: [der(RC, new_nc, s, 0, T, c).eq(der(C, nc, s, kk, T, c)) for c in range(D)]),
+                      'order0_of_result_is_orderk_of_original')
+        else:
+            S.ensures(S.forall(0, n, lambda s: [RC.at(s, c).eq(0) for c in range(D)]), 'zero_beyond_degree')
+        if kk < nc:
+            S.loop(0, inv=lambda L: [
+                ('range', (L.i >= 0) & (L.i <= n)),
+                ('table', table_inv(S)),
+                ('rows', L.new_coeffs.R.eq(n * new_nc)),
+                ('filled', S.forall(0, L.i, lambda s: [L.new_coeffs.at(s * new_nc + j, c).eq(Fraction(ff(j + kk, kk)) * C.at(s * nc + j + kk, c))
+                                                       for j in range(new_nc) for c in range(D)])),
+            ], variant=lambda L: n - L.i)
+
+
+@register
+class ZeroFactory(Contract):
+    key = 'PPolyND.zero'
+
+    def spec(self, S):
+        D = S.cfg['DIM']
+        bp = S.v('breakpoints')
+        ncf = S.num_coefficients
+        R = S.v('result')
+        RC, Rbp = R.fields['coefficients_'], R.fields['breakpoints_']
+        S.requires((bp.size() >= 0) & (bp.size() <= 1 << 20) & (ncf >= 1) & (ncf <= 64), 'sizes_sane')
+        order = S.cfg.get('ORDER')
+        ok = bp.size() >= 2
+        if order is not None:
+            ok = ok & (ncf <= order)
+        S.assigns()
+        S.ensures(R.fields['is_initialized_'].rd().eq(ok), 'initialised_iff_two_breakpoints')
+        for j, p in enumerate(same_contents_vec(S, Rbp, bp)):
+            S.ensures(_under(ok, p), 'on_the_given_breakpoints_%d' % j)
+        S.ensures(implies(ok, R.fields['num_coeffs_'].rd().eq(ncf) & R.fields['num_segments_'].rd().eq(bp.size() - 1)), 'counts')
+        S.ensures(S.forall(0, RC.R, lambda r: implies(ok, conj([RC.at(r, c).eq(0) for c in range(D)]))), 'all_coefficients_zero')
+
+
+@register
+class ConstantFactory(Contract):
+    key = 'PPolyND.constant'
+
+    def spec(self, S):
+        D = S.cfg['DIM']
+        bp = S.v('breakpoints')
+        cv = S.v('constant_value')
+        R = S.v('result')
+        RC, Rbp = R.fields['coefficients_'], R.fields['breakpoints_']
+        S.requires((bp.size() >= 0) & (bp.size() <= 1 << 20), 'sizes_sane')
+        ok = bp.size() >= 2
+        S.assigns()
+        S.ensures(R.fields['is_initialized_'].rd().eq(ok), 'initialised_iff_two_breakpoints')
+        for j, p in enumerate(same_contents_vec(S, Rbp, bp)):
+            S.ensures(_under(ok, p), 'on_the_given_breakpoints_%d' % j)
+        S.ensures(implies(ok, R.fields['num_coeffs_'].rd().eq(1) & R.fields['num_segments_'].rd().eq(bp.size() - 1) & RC.R.eq(bp.size() - 1)), 'one_coefficient_per_piece')
+        S.ensures(S.forall(0, bp.size() - 1, lambda r: implies(ok, conj([RC.at(r, c).eq(cv.at(c, 0)) for c in range(D)]))), 'every_piece_is_the_constant')
+        S.loop(0, inv=lambda L: [
+            ('range', (L.i >= 0) & (L.i <= L.num_segments)),
+            ('rows', L.coeffs.R.eq(L.num_segments)),
+            ('filled', S.forall(0, L.i, lambda r: [L.coeffs.at(r, c).eq(cv.at(c, 0)) for c in range(D)])),
+        ], variant=lambda L: L.num_segments - L.i)
+
+
+@register
+class GenerateTimeSequence1(Contract):
+    key = 'PPolyND.generateTimeSequence'
+    nparams = 1
+
+    def spec(self, S):
+        # forwards to the three-argument form on [first breakpoint, last breakpoint]
+        S.i2r_axioms()
+        S.i2r_const(1 << 24)
+        bp = S.v('breakpoints_')
+        s, e, dt = bp.at(0), bp.at(bp.size() - 1), S.dt
+        res = S.v('result')
+        f = lambda k: E.idx('I2R', k, REAL)
+        S.requires((bp.size() >= 1) & (dt > 0) & (e >= s) & ((e - s) < dt * Fraction(1 << 24)), 'preconditions_of_the_general_form')
+        S.assigns()
+        n = res.size()
+        S.ensures((n >= 1) & res.at(0).eq(s), 'starts_at_trajectory_start')
+        S.ensures((res.at(n - 1) <= e) & (e - res.at(n - 1) <= EPS_END), 'ends_within_1e-6_of_trajectory_end')
+        S.ensures(S.forall(0, n - 1, lambda i: res.at(i) < res.at(i + 1)), 'strictly_increasing')
